@@ -20,6 +20,7 @@ DECIDED += '; R2 also: the FIN is remembered as EOF on both read paths (read and
 DECIDED += "; R2 also: Rt::crash cancels the host's tasks on every path, whether or not the main future is still running; R9 crash / bounce drop the tasks with the host's filesystem entered (recorded finding D56); Fs::crash also drops the page cache (shared C07-R2)"
 DECIDED += "; R5 also: the software factory is called inside the closure handed to rt::with; R10 = C05-R11 (the old incarnation's destructors run inside the *old* runtime); groups survive the drop of one member (shared C09-R12)"
 DECIDED += '; R8 also: a dropped half removes the whole stream entry only after it sent the RST; the entered Fs is put back as it was found (shared C01-R8)'
+DECIDED += '; abandoned connect requests neither count against the backlog nor strand a live request (shared C12-R8 / R9)'
 ASSUMPTIONS = ["dropping a tokio Runtime and LocalSet drops every task they own"]
 
 
